@@ -29,7 +29,8 @@ claim("C05", "DESIGN.md 5/C05 and 9", "Lean 4 theorems (shape; equivariance unde
       "(any permutation of the cell positions and/or a new shape) to every input gives the original outcome rearranged in exactly the same way (same error, or the same cells at the new "
       "positions under the new shape), for all 31 commands incl. the whole-array statistics (min, max, mean, standard deviation, mean-to-mid points: proved invariant under permutation). "
       "The real bodies are tied to the model by the correspondence on rank 1-3 shapes, grids enumerating all value pairs, and twin runs (permutation, reshape, Fortran layout) on the implementation. "
-      "Memory layout (strides) is not in the model: decided by the layout twin only.",
+      "Memory layout (strides) is not in the model: decided by the layout twin only. In the model a command is a function of its own inputs and parameters (no program state); on the implementation "
+      "this is checked by the pipeline twin and the shared-program twin (the same command as the n-th of one long-lived Program that evaluated other shapes and types before it).",
       TB)
 claim("C06", "DESIGN.md 5/C06", "Lean 4 theorems (definitions, algebra, order invariance) + exhaustive-lattice correspondence + reference/algebra oracles",
       "Theorems in MPilot.C06: Or/And cell = max/min of the column; Not negates, is an involution; De Morgan; And <= Union <= Or; xor stays in range; "
@@ -39,7 +40,9 @@ claim("C06", "DESIGN.md 5/C06", "Lean 4 theorems (definitions, algebra, order in
 claim("C07", "DESIGN.md 5/C07", "Lean 4 theorems (cell definitions, commutativity incl. failure, error order) + differential correspondence + reference oracles",
       "Theorems in MPilot.C07: Sum/Multiply/Minimum/Maximum cell definitions with mask = union; AMinusB/ADividedByB cells; division by zero masks and never "
       "fails; Sum, Multiply, Minimum, Maximum, Mean give the same error or visibly equal results for every permutation of their inputs; EmptyInputs, "
-      "MixedArrayShapes, MismatchedWeights raised in the bodies' order. Weighted commands' order invariance is decided by oracle/correspondence only: partial.",
+      "MixedArrayShapes, MismatchedWeights raised in the bodies' order; mean_cell, weightedSum_cell (each cell is the weighted sum of the column, missing where any input is), "
+      "weightedSum_perm / weightedMean_perm (inputs and weights permuted alongside give the same outcome). The element-type rule and wrap-around of narrow integer types are decided on the implementation "
+      "(type-mix enumeration, narrow/unsigned integer twins, pipeline twins with whole-valued float weights); unsigned A - B is known finding F18.",
       TB)
 claim("C08", "DESIGN.md 5/C08", "Lean 4 theorems (threshold map, inverse, monotonicity, lookup, curve order independence, counterpart equality) + correspondence + mapping oracles",
       "Theorems in MPilot.C08: CvtToFuzzy maps true->+1, false->-1, is the line between and clamped outside, monotone/antitone; CvtFromFuzzy inverts it; "
@@ -99,7 +102,9 @@ claim("C10", "DESIGN.md 5/C10 and 9", "Lean theorems: characters -> tokens -> pr
       "program_renders (token level, mutual induction over values; it exposed and fixed an inadequate recursion budget of the model). NOT covered by the theorem, and decided by the correspondence and the "
       "round-trip oracle on the implementation only: tuples with unquoted keys or values (quoted keys with quoted/integer values are covered), unquoted non-identifier strings, exponent-form decimals, quoted strings spanning lines, EEMS 2.0 command form, and the "
       "rejection of malformed text (partial as proof for those). The executable model is compared with Parser().parse on every run over renderings of random abstract programs under random layouts, their "
-      "single-character mutations and token soups (whole tree with line numbers, or error class). Known finding F10 (unquoted multi-token strings) is re-run and listed.",
+      "single-character mutations and token soups (whole tree with line numbers, or error class). Every accepted text is also loaded with the real Program.from_source (a library that serves every command name): "
+      "result names, command names, lines, argument names, values with their kinds, nesting and tuples handed to the commands must be those of the parse, whatever was loaded earlier in the process (texts differing "
+      "only in blanks inside strings or in a line break after a comment are loaded one after the other). Known finding F10 (unquoted multi-token strings) is re-run and listed.",
       XB)
 claim("C11", "DESIGN.md 5/C11", "Lean theorems on line counting + differential correspondence incl. every line number + by-construction line oracles",
       "In the model a parse is a function of the text alone (history independence is definitional; the real Parser is compared after 0-3 earlier parses and earlier loads in the process). "
@@ -129,11 +134,13 @@ claim("C18", "DESIGN.md 5/C18", "Lean theorems on the command logic over an assu
       "Partial by nature: netCDF4/HDF5 (storage, compression, fill values, attribute copying, CRS discovery) is assumed - 'what is assigned is what is read' - and only validated on generated "
       "files. Theorems in MPilot.C18: unionMask_spec / ncWrite_spec (every variable keeps shape, element type and values; missing exactly where any result written together is missing), "
       "read_default (float by default, faithful), read_missing_value_mask, read_positive_check, read_fuzzy_check, read_no_such_variable. The real EEMSRead/EEMSWrite are compared with the model "
-      "using the array the library actually delivers; files are inspected through the library itself (shape, kind, values, union mask, dimension variables, coordinate values, attributes).",
+      "using the array the library actually delivers; files are inspected through the library itself (shape, kind, values, union mask, dimension variables, coordinate values, attributes). "
+      "Whole NetCDF command files (read, one or two data commands, write; any file order) are loaded with Program.from_source, run, and the written dataset compared with the computed results.",
       TB)
 claim("C19", "DESIGN.md 5/C19", "Lean theorems on the registry model + tables regenerated from the source (decide) + fresh-interpreter history correspondence + fresh-process twins",
       "Theorems in MPilot.C19: lookup_congr (the lookup is a function of the registered entries under the requested libraries), register_outside_irrelevant / history_outside_irrelevant "
       "(no history of definitions elsewhere changes it), no_prefix_capture (every offered command's module is a requested library or beneath one), lookup_perm (order of libraries), "
       "duplicates_rejected. builtin_libraries_duplicate_free / readers_resolve_to_own_library / builtin_modules_under_libraries are re-proved by kernel evaluation against declarations "
-      "regenerated from the source on every run. Every history runs in a fresh interpreter and each final request is replayed first-thing in another fresh one.",
+      "regenerated from the source on every run. Every history runs in a fresh interpreter and each final request is replayed first-thing in another fresh one. Libraries that exist only as files "
+      "(modules and packages with prefix-related names) are requested in random sequences, each in a fresh interpreter: every request, the empty one included, is offered exactly the commands defined under it.",
       PB)
